@@ -1,5 +1,6 @@
 import QuiverModel.Lemmas.Sys.Faithful
 import QuiverModel.Lemmas.Sys.Stored
+import QuiverModel.Lemmas.Sys.Live
 /-
 C04 — Messages: exactly-once, per-sender FIFO, and no lost wake-ups.
 
@@ -486,5 +487,31 @@ theorem stored_results_faithful (n : Nat) (prog : Prog) (req : Nat) (hn : 0 < n)
   · exact ⟨fun w a x t v hx hm => h.core.stored w a x t v hx hm,
            fun w a rs t r hm ht => h.core.updc w a rs t r hm ht,
            fun a pa w rs t r hp hm ht => h.core.pend a pa w rs t r hp hm ht⟩
+
+/-! ### no process is forgotten by the scheduler -/
+
+/-- **No process in limbo**: in every reachable state — any worker count, any choices, the start-up
+phase included — a process that has no result is in `queue`, `spawning` or `selecting` of its
+executor: nothing is ever dropped from the scheduler's sets while it still has work to do. -/
+theorem no_process_in_limbo (n : Nat) (prog : Prog) (req : Nat) (cs : List Choice) (w : Wid) (p : Pid) (x : Proc)
+    (hx : ((reach n prog req cs).wk w).procs p = some x) (hr : x.result = none) :
+    p ∈ ((reach n prog req cs).wk w).queue ∨ p ∈ ((reach n prog req cs).wk w).spawning ∨
+    p ∈ ((reach n prog req cs).wk w).selecting :=
+  no_limbo n prog req cs w p x hx hr
+
+/-- **What an idle system looks like**: every unfinished process is parked in `selecting`, in a
+select none of whose sources is locally ready (no matching message in its mailbox, no stored
+answer, no failed target, no expired timeout). With `no_lost_wakeup`: an idle system is stuck only
+on selects that really have nothing to take. -/
+theorem idle_unfinished_parked (n : Nat) (prog : Prog) (req : Nat) (hn : 0 < n) (hwf : ProgWF prog) (cs : List Choice)
+    (hidle : (reach n prog req cs).idle) (w : Wid) (hw : w < (reach n prog req cs).n) (p : Pid) (x : Proc)
+    (hx : ((reach n prog req cs).wk w).procs p = some x) (hr : x.result = none) :
+    p ∈ ((reach n prog req cs).wk w).selecting ∧ ¬ LocalReady (reach n prog req cs).prog x := by
+  have hsel : p ∈ ((reach n prog req cs).wk w).selecting := by
+    rcases no_process_in_limbo n prog req cs w p x hx hr with h | h | h
+    · rw [(hidle w hw).2.2] at h; cases h
+    · rw [quiescent_no_spawner_waiting n prog req hn hwf cs hidle w hw] at h; cases h
+    · exact h
+  exact ⟨hsel, quiescent_no_blocked_ready n prog req hn hwf cs hidle w p x hsel hx⟩
 
 end C04
